@@ -58,11 +58,11 @@ func (g *G) Weighted(ws []int, label string) int {
 // names that are prefixes / substrings of each other; regexp metacharacters.
 var (
 	bases    = []string{"a", "b", "d", "ad", "lib", "test", "x", "é", "Z", "build", "r\xe9sum\xe9", "rebuild", "mytest", "\xff", "~", "\xffz"}
-	suffixes = []string{"", "", "", ".go", ".c", "-old", "-data", "0", "1", " b", "(1)", "(", "+", "_", ".", "[", "ü", " ", "-", "+x", ".txt", ".log", ".tmp", ".tmpx", ".c++", "\xff", "%d", "%", "100%s", `\b`, `\`}
+	suffixes = []string{"", "", "", ".go", ".c", "-old", "-data", "0", "1", " b", "(1)", "(", "+", "_", ".", "[", "ü", " ", "-", "+x", ".txt", ".log", ".tmp", ".tmpx", ".c++", "\xff", "%d", "%", "100%s", `\b`, `\`, ".gz", ".tar.gz"}
 	// IgnoreDirs / IgnoreExts are what a generated .goitignore may contain. Extensions are never
 	// used in directory names, so "ignored" is unambiguous in the generated domain.
-	IgnoreDirs = []string{"build", "lib-old", "test.c", "r\xe9sum\xe9"}
-	IgnoreExts = []string{".log", ".tmp", ".tmpx", ".c++"}
+	IgnoreDirs = []string{"build", "lib-old", "test.c", "r\xe9sum\xe9", "é-old"}
+	IgnoreExts = []string{".log", ".tmp", ".tmpx", ".c++", ".tar.gz"}
 )
 
 // openNameExclusions: characters excluded from names while a finding is open.
@@ -454,7 +454,7 @@ func (g *G) UserName() string {
 	if g.Chance(15, "awkwardName") {
 		// printable names that a line-oriented reader or a "name <mail> time" splitter may cut in the wrong place
 		return g.Pick([]string{"dev -> ops", "a > b", "Team => Ops", "Ada Tester #2", "x ;y", "#lead", "; semi", "a = b", "[x]", "the [boss]", "name]", "[name",
-			"x> y", "mail@like.this", "1700000000 +0900", "tree", "commit: x", "a: b", "reset: moving to HEAD@{1}", "%s", "100%"}, "awkward")
+			"x> y", "\"Ann Lee\"", "\"G\"", "'q'", "mail@like.this", "1700000000 +0900", "tree", "commit: x", "a: b", "reset: moving to HEAD@{1}", "%s", "100%"}, "awkward")
 	}
 	return rapid.StringMatching(`[A-Za-zé日%$&(#;][A-Za-z0-9é日.'%$&*",;!?@\[\]{}|~^+_/\\:=#)>-]{0,8}( [A-Za-z(%#;>][A-Za-z0-9)>:=#%&*!]{0,6}){0,2}`).Draw(g.T, "uname")
 }
@@ -503,7 +503,8 @@ func (g *G) FreeBranch() string {
 	// and the name without such a suffix
 	if h := g.E.Cur.HeadBr; h != "" && len(h) < 40 {
 		var derived []string
-		for _, d := range []string{h + ".tmp", h + ".lock", h + "~", strings.TrimSuffix(h, ".tmp"), strings.TrimSuffix(h, ".lock")} {
+		// ({{commit#0}} / {{tree#n}}: a branch whose NAME is the 40-digit id of a stored object)
+		for _, d := range []string{h + ".tmp", h + ".lock", h + "~", strings.TrimSuffix(h, ".tmp"), strings.TrimSuffix(h, ".lock"), "{{commit#0}}", fmt.Sprintf("{{tree#%d}}", len(g.E.H.Order))} {
 			if _, ok := g.E.Cur.Branches[d]; !ok && d != "" && d != h {
 				derived = append(derived, d)
 			}
